@@ -10,6 +10,13 @@ import (
 func vhC17Hijack() {
 	tail := c05Sym("tail", vParam("tailLen", 3))
 	req := "GET /h HTTP/1.1\r\nHost: a\r\n\r\n"
+	reqKind := vChoose("request", 3)
+	switch reqKind {
+	case 1: // a hijacking request with a body
+		req = "POST /h HTTP/1.1\r\nHost: a\r\nContent-Length: 2\r\n\r\nxy"
+	case 2: // ... announced with Expect: 100-continue
+		req = "POST /h HTTP/1.1\r\nHost: a\r\nExpect: 100-continue\r\nContent-Length: 2\r\n\r\nxy"
+	}
 	c := &vsSegConn{}
 	switch vChoose("split", 3) {
 	case 0: // trailing bytes already buffered with the request
@@ -58,9 +65,10 @@ func vhC17Hijack() {
 	vAssert("trailing-bytes-delivered-in-order", string(got) == string(tail))
 	rs, ok := vsParseResponses(c.wrote)
 	if noResp {
-		vAssert("no-response-when-suppressed", len(c.wrote) == 0)
+		vAssert("no-response-when-suppressed", ok && len(c02Final(rs)) == 0)
 	} else {
-		vAssert("response-complete-before-hijack", ok && len(rs) == 1 && rs[0].status == 200 && wroteAtHijack == len(c.wrote))
+		fin := c02Final(rs)
+		vAssert("response-complete-before-hijack", ok && len(fin) == 1 && fin[0].status == 200 && wroteAtHijack == len(c.wrote))
 	}
 	vAssert("not-closed-before-handler", closedAtHijack == 0)
 	if s.KeepHijackedConns {
